@@ -15,10 +15,10 @@ def validate_trace(wd, tracefile, timeout=900):
     return res, rej
 
 
-def replay_edges(vhbin, wd, edges):
+def replay_edges(vhbin, wd, edges, types="negative"):
     ef = os.path.join(wd, "edges.txt")
     open(ef, "w").write("\n".join(edges) + "\n")
-    out = vlib.vh(vhbin, ["peek-replay", ef])
+    out = vlib.vh(vhbin, ["peek-replay", ef, types])
     mism, done = [], None
     for line in out.splitlines():
         p = line.split("\t")
@@ -53,6 +53,10 @@ def run(pid, tier, args):
                 raise Infra("vacuity: action %s never taken in the model" % op)
         mism, done = replay_edges(vhbin, wd, edges)
         v.validated(done[0])
+        # the same transitions with rune-style (positive) token types, as text/scanner based and custom lexers use
+        mism2, done2 = replay_edges(vhbin, wd, edges, "positive")
+        v.validated(done2[0])
+        mism = mism + [(l_, "[positive token types] " + m_) for l_, m_ in mism2]
         v.sample({"edge": edges[len(edges) // 2], "format": "toks|raw,peek,cur|saved slots|op|arg|result|raw',peek',cur'|saved'"})
         for line, msg in mism[:3]:
             v.violation("transition %s: %s" % (line, msg), {"property": pid, "kind": "edge", "edge": line, "detail": msg})
